@@ -71,12 +71,12 @@ CLAIMED = {
             "cache is only read by alignment / landscape tasks (frame clause writes_to(cache) == 0; lookup with an equal "
             "Backend hits); (b) results of functools.lru_cache'd helper grids are never updated in place by their callers "
             "(frame obligations on every verified caller); (c) declared shapes of lazy arrays equal computed shapes: "
-            "construct_landscape (all four models, any search range / scale / up-sampling factor, single template) and "
+            "construct_landscape (all four models, single- and multi-candidate, any search range / scale / up-sampling factor) and "
             "construct_loading_tasks; landscape task i gets sub-volume i, position i and orientation i.",
             NOTE + "Thread interleavings themselves are not explored (no concurrency in this technique): the argument is "
             "'tasks only read shared state'. dask's scheduler, chunking of the tomogram and the numpy/dask equivalence of "
-            "array operations are trusted library contracts; multi-template landscapes and the global default backend are "
-            "not under contract; fsc_landscape's shape and dict_iterrows are trusted."),
+            "array operations are trusted library contracts; the global default backend is not under contract; "
+            "fsc_landscape's shape and dict_iterrows (incl. its one-dict aliasing) are trusted."),
     "C12": ("DESIGN.md section 2 / C12",
             "Deductive, any number of molecules: __init__ establishes or rejects (lengths of positions / orientations / "
             "feature rows agree), subset (int, slice, index array, boolean mask), head, tail, filter, sort, sample, "
@@ -100,9 +100,12 @@ CLAIMED = {
             "Deductive, any molecule count and all SO(3) orientations (matrix view): x/y/z are columns 2/1/0 of the rotation "
             "and unit vectors; rotate_by composes on the left and keeps positions; translate / translate_internal add the "
             "world / molecule-frame shift; rotate_by_rotvec_internal composes on the right (uses z = cross(x,y), proved "
-            "from orthogonality + det = 1 by a lemma chain); copy=True leaves the receiver unmodified.",
-            NOTE + "Trusted: scipy Rotation algebra, the Rodrigues equivariance axiom; from_axes / Euler / quaternion round "
-            "trips, affine_matrix and local_coordinates are not under contract yet."),
+            "from orthogonality + det = 1 by a lemma chain); copy=True leaves the receiver unmodified; "
+            "quaternion() / rotvec() / matrix() describe the molecule's own rotation and from_quat / from_rotvec build the "
+            "rotation of the given representation (also for zero molecules).",
+            NOTE + "Trusted: scipy Rotation algebra (incl. from_X(as_X(R)) == R), the Rodrigues equivariance axiom; from_axes "
+            "(observed wrong for anti-parallel axes: see DESIGN.md section 7), Euler angles, affine_matrix and "
+            "local_coordinates are not under contract."),
     "C14": ("DESIGN.md section 2 / C14",
             "Deductive, all template shapes (odd/even), poses, scales: _prep_iterators' affine coefficients put the "
             "template centre on pos/scale (fragment voxel o at start+o samples centre + R^-1(start+o-pos)); _prep_slices "
